@@ -559,7 +559,7 @@ class __Integer(_pre.Pregex):
                     digit_pre = \
                         _asr.NotPrecededBy(
                             digit_pre,
-                            *[_cl.AnyButDigit() + '0' + (i - 2) * _cl.AnyDigit() for i in range(2, i+1)]
+                            *[integer_start + '0' + (i - 2) * _cl.AnyDigit() for i in range(2, i+1)]
                         )
                 
             p_start += d_start.replace(filler, '')
